@@ -1,17 +1,107 @@
-"""C02 -- every task is dispatched exactly once, to a free worker, after its inputs exist (engine E1, SimCluster)."""
+"""C02 -- every task is dispatched exactly once, to a free worker, after its inputs exist (engine E1 SimCluster + worker protocol harness)."""
 
-from vlib.checks._sim import make_plan, run_shard  # noqa: F401
+from __future__ import annotations
+
+import json
+import math
+import os
+import signal
+import subprocess
+import tempfile
+
+from vlib.checks import _sim
+from vlib.common.core import Collector, digest
 
 ID = "C02"
 LEVEL = "exploration"
 MANIFEST = dict(
     engine="E1-simcluster", engine_path="vlib/simcluster.py",
-    kind="real controller + scheduler against SimBridge (executable nondeterministic model of the executors, seeded adversarial schedulers); task bodies run through the real runner and serde",
-    technique="runtime monitoring of the real controller behind the Bridge seam: every Bridge.task_sequence call is checked online against the model's ground truth (task not sent before, worker exists, is free, has a GPU if needed, every input produced, input on the target host or its transfer commanded); the model itself refuses to start a sequence before its inputs are in the host store; at return every task was dispatched",
-    text='Held = every dispatch in every run satisfied all clauses; worker-side clause additionally exercised by the worker protocol harness (thorough tier) when built.',
-    note="the executors are a model: orders allowed are those the transports allow (FIFO per message socket, FIFO per data socket, purge reaches the data server over a third hop, payloads unordered, per-origin FIFO of events in the default classes).",
+    kind="real controller + scheduler against SimBridge (executable nondeterministic model of the executors); plus the real worker entrypoint in a forked process with a real shm server, driven through every permutation of TaskSequence / DatasetPublished messages",
+    technique="runtime monitoring of the real controller behind the Bridge seam: every Bridge.task_sequence call is checked online against the model's ground truth (task not sent before, worker exists, is free, has a GPU if needed, every input produced, input on the target host or its transfer commanded; at return every task was dispatched). Worker clause: the real entrypoint receives the task command and the publication notices of its inputs in every order (<=4 inputs exhaustive: 153 orders; larger sampled), each input being written to shared memory just before its notice; a wrapper around execute_sequence records at the instant the sequence starts whether every required input is readable; exactly one start, no start before the last input, correct published value",
+    text="Held = every dispatch in every simulated run satisfied all clauses, and in every message order the real worker started the sequence exactly once, only after all inputs were readable on its host, and published the value sequential evaluation gives.",
+    note="the executors in E1 are a model (orders allowed are those the transports allow); the worker harness uses one real worker process and one real shm server per shard.",
 )
-RULE = 'case = one controller run: generated job DAG x environment (1-4 hosts x 1-4 workers) x scheduler policy x hash seed (see C01); every task_sequence command is one monitor evaluation; non-trivial = >=2 tasks and >=1 edge'
+RULE = ("case = one controller run (generated job DAG x environment 1-4 hosts x 1-4 workers x scheduler policy x hash seed, see C01; every task_sequence command is one monitor evaluation) or one worker-protocol "
+        "round (a task with 0-6 inputs, one permutation of [TaskSequence, notice_1..notice_k], optional duplicate notices and unrelated purges); non-trivial = >=2 tasks and >=1 edge, or >=1 input; "
+        "distinct = digest(job skeleton, environment, policy, order) resp. (k, permutation)")
 ASSUMPTIONS = ["executors eventually execute every command they were given (fair model)", "per-origin FIFO of events except in the reorder-by-retransmission class"]
-REQUIRED_COUNTERS = ['runs', 'commands_task_sequence', 'tasks_executed', 'runs_multi_host', 'commands_transmit']
-plan = make_plan("C02", "values", 61)
+REQUIRED_COUNTERS = ["runs", "commands_task_sequence", "tasks_executed", "runs_multi_host", "commands_transmit", "worker_rounds", "worker_orders_overtaking_notice", "worker_values_checked"]
+
+ENUM = [(k, pi) for k in range(0, 5) for pi in range(math.factorial(k + 1))]   # 153 message orders for <=4 inputs
+
+
+def run_worker_shard(spec, col: Collector):
+    from vlib.common.driver import PY, child_env
+    import random
+    rng = random.Random(f"{spec['seed']}/{spec['shard']}")
+    mine = spec["enum"]
+    rounds = [k for (k, _pi) in mine] + [rng.randint(5, 6) for _ in range(spec["n_random"])]
+    perm_index = {str(j): pi for j, (_k, pi) in enumerate(mine)}
+    no = spec["shard_no"]
+    base = 24000 + no * 40
+    wspec = {"seed": f"{spec['seed']}/{spec['shard']}", "tmp": tempfile.mkdtemp(prefix=f"v02w{no}-"), "host": f"wp{no:x}{spec['seed'] % 256:02x}", "shm_port": base + 3,
+             "callback": f"tcp://localhost:{base + 1}", "rounds": rounds, "perm_index": perm_index}
+    fd, path = tempfile.mkstemp(prefix="v02spec", suffix=".json")
+    with os.fdopen(fd, "w") as f:
+        json.dump(wspec, f)
+    out = ""
+    try:
+        p = subprocess.Popen([PY, "-m", "vlib.workerproto", path], env=child_env(), cwd=os.path.dirname(os.path.dirname(os.path.dirname(os.path.abspath(__file__)))),
+                             stdout=subprocess.PIPE, stderr=subprocess.DEVNULL, start_new_session=True, text=True)
+        try:
+            out, _ = p.communicate(timeout=spec["timeout_s"] - 20)
+        except subprocess.TimeoutExpired:
+            out = ""
+        finally:
+            try:
+                os.killpg(p.pid, signal.SIGKILL)
+            except ProcessLookupError:
+                pass
+            p.wait()
+    finally:
+        os.unlink(path)
+        import shutil
+        shutil.rmtree(wspec["tmp"], ignore_errors=True)
+    res = None
+    for ln in out.splitlines():
+        if ln.startswith("RESULT "):
+            res = json.loads(ln[7:])
+    if res is None or res.get("outcome") != "ok":
+        col.not_reached(f"worker protocol harness produced no result: {(res or {}).get('error', 'timeout')[-300:]}")
+        return
+    st = res["stats"]
+    for j, k in enumerate(rounds[: st["rounds"]]):
+        col.case(shape=digest("worker", k, perm_index.get(str(j), f"random{j}")), nontrivial=k >= 1,
+                 sample={"worker_round": j, "inputs": k, "permutation_index": perm_index.get(str(j))} if j < 2 else None)
+    col.count("worker_rounds", st["rounds"])
+    col.count("worker_starts", st["starts"])
+    col.count("worker_values_checked", st["values_checked"])
+    col.count("worker_orders_overtaking_notice", st["commands_overtaking_notice"])
+    for mech, msg in res["violations"]:
+        col.violation(f"worker:{mech}", msg, {"rounds": rounds, "perm_index": perm_index}, None)
+
+
+def run_shard(spec, col: Collector):
+    if spec.get("kind") == "worker":
+        return run_worker_shard(spec, col)
+    return _sim.run_shard(spec, col)
+
+
+_sim_plan = _sim.make_plan("C02", "values", 61)
+
+
+def plan(tier, seed, scale=1.0):
+    specs = _sim_plan(tier, seed, scale)
+    q = tier == "quick"
+    if q:
+        small = [e for e in ENUM if e[0] <= 3]
+        nsh = 4
+        parts = [small[i::nsh] for i in range(nsh)]
+        extra = [[ENUM[33 + (seed * 7 + i * 13 + j) % 120] for j in range(3)] for i in range(nsh)]
+        parts = [a + b for a, b in zip(parts, extra)]
+    else:
+        nsh = 8
+        parts = [ENUM[i::nsh] for i in range(nsh)]
+    for i, part in enumerate(parts):
+        specs.append(dict(kind="worker", shard=f"w{i}", shard_no=i, enum=part, n_random=1 if q else 8, budget_s=100 if q else 900, timeout_s=200 if q else 1200, prop="C02"))
+    return specs
